@@ -187,6 +187,65 @@ Proof.
     + apply IH; [exact Hs|]. exists id, v, to. tauto.
 Qed.
 
+(** the pinned loop outside the known finding: when NO literal of the array (enabled or not) properly extends the
+    typed value, the pinned loop consumes it too *)
+Lemma pinned_consumes_value st v : forall lits to,
+    sorted_desc lits ->
+    first_enabled lits st v = Some to ->
+    (forall id l, In (id, l) lits -> String.prefix v l = true -> l = v /\ assocN id st <> None) ->
+    lit_pure_pinned lits st v = SCont to (String.length v).
+Proof.
+  induction lits as [|[lid lit] r IH]; intros to Hs Hf Hk; [discriminate|].
+  cbn [lit_pure_pinned first_enabled] in *.
+  destruct Hs as [Hlen Hs].
+  assert (Hk' : forall id l, In (id, l) r -> String.prefix v l = true -> l = v /\ assocN id st <> None)
+    by (intros id l Hin; apply (Hk id l); now right).
+  destruct (String.eqb lit v) eqn:E.
+  - apply String.eqb_eq in E. subst lit.
+    destruct (Hk lid v (or_introl eq_refl) (prefix_refl v)) as [_ Hen].
+    destruct (assocN lid st) as [to'|]; [|congruence]. injection Hf as <-. reflexivity.
+  - destruct (String.prefix v lit) eqn:E2.
+    { destruct (Hk lid lit (or_introl eq_refl) E2) as [-> _]. rewrite String.eqb_refl in E. discriminate. }
+    destruct (String.prefix lit v) eqn:Ep.
+    + destruct (assocN lid st) as [to'|] eqn:Ea.
+      * exfalso.
+        assert (exists id, In (id, v) r) as [id Hin].
+        { clear - Hf. induction r as [|[i l] r IH]; cbn [first_enabled] in Hf; [discriminate|].
+          destruct (String.eqb l v) eqn:E.
+          - apply String.eqb_eq in E. subst l. exists i. now left.
+          - destruct (IH Hf) as [id H]. exists id. now right. }
+        pose proof (Hlen id v Hin) as L1.
+        pose proof (prefix_length _ _ Ep) as L2.
+        assert (lit = v) by (apply prefix_same_length; [exact Ep|lia]).
+        apply eqb_false_neq in E. contradiction.
+      * now apply IH.
+    + now apply IH.
+Qed.
+
+(** ... and inside the known finding it refuses: a literal in front of [v] in the array that [v] is a proper prefix
+    of makes the pinned loop stop, whether that literal is expected at this point or not *)
+Lemma pinned_refuses_shorter_value st v : forall lits,
+    sorted_desc lits ->
+    (exists id l, In (id, l) lits /\ String.prefix v l = true /\ l <> v) ->
+    lit_pure_pinned lits st v = SBreak.
+Proof.
+  induction lits as [|[lid lit] r IH]; intros Hs (id & l & Hin & Hp & Hne); [contradiction|].
+  assert (Lv : (String.length v < String.length l)%nat).
+  { pose proof (prefix_length _ _ Hp).
+    destruct (Nat.eq_dec (String.length v) (String.length l)) as [E|E]; [|lia].
+    exfalso. apply Hne. symmetry. now apply prefix_same_length. }
+  cbn [lit_pure_pinned]. destruct Hs as [Hlen Hs].
+  destruct Hin as [Hin|Hin].
+  - injection Hin as -> ->.
+    destruct (String.eqb l v) eqn:E; [apply String.eqb_eq in E; congruence|].
+    now rewrite Hp.
+  - pose proof (Hlen id l Hin) as L1.
+    destruct (String.eqb lit v) eqn:E; [apply String.eqb_eq in E; subst lit; lia|].
+    destruct (String.prefix v lit); [reflexivity|].
+    destruct (String.prefix lit v) eqn:Ep; [pose proof (prefix_length _ _ Ep); lia|].
+    apply IH; [exact Hs|]. exists id, l. tauto.
+Qed.
+
 (** a single enabled piece is consumed (the literal prefix of the word) *)
 Lemma fixed_consumes_piece complete st sub : forall lits lid lit to,
     (forall id l t, In (id, l) lits -> assocN id st = Some t -> id = lid /\ l = lit) ->
